@@ -20,7 +20,7 @@
    ancestor_mapper_init_ancestors, kept because tests/test_lowlevel.py::test_link_ancestors
    relies on it); `_mutant_refuted` theorems are about seeded changes, not about /repo. *)
 From Coq Require Import List ZArith Bool.
-From TskVerif Require Import Base.Common C09.Guards C09.GuardProofs C09.MapMutations C09.SeekProofs C09.RatesProofs C09.Guards2 C09.Guard2Proofs C09.IndexProofs.
+From TskVerif Require Import Base.Common C09.Guards C09.GuardProofs C09.MapMutations C09.SeekProofs C09.RatesProofs C09.Guards2 C09.Guard2Proofs C09.IndexProofs C09.Guards3 C09.Guard3Proofs.
 Import ListNotations.
 Open Scope Z_scope.
 
@@ -322,3 +322,33 @@ Proof. exact IndexProofs.guard_implies_in_bounds_check_index. Qed.
 Theorem check_index_removal_unchecked_mutant_refuted :
   exists ne ins rem edge_col, zlen edge_col = ne /\ check_index_entry true false ne ins rem edge_col = OOB.
 Proof. exact IndexProofs.check_index_removal_unchecked_mutant_refuted. Qed.
+
+(* ==== third tier (C09/Guards3.v) ==== *)
+
+(* set_columns / append_columns / fromdict / unpickling of EVERY table: when only the first
+   column read adopts its own length as num_rows and every later one is checked against it
+   ([spec_well_formed], evaluated per run on the flags re-read from tskit_lwt_interface.h),
+   no column is read past its end, whatever lengths the caller passes and whichever optional
+   columns are absent *)
+Theorem guard_implies_in_bounds_table_columns : forall spec given,
+  spec_well_formed spec = true -> table_columns_entry spec given <> OOB.
+Proof. exact Guard3Proofs.guard_implies_in_bounds_table_columns. Qed.
+
+(* seeded change C09-5 (the shape of C09-N6): a later column read with check_num_rows = false *)
+Theorem table_columns_unchecked_column_mutant_refuted :
+  exists spec given, table_columns_entry spec given = OOB.
+Proof. exact Guard3Proofs.table_columns_unchecked_column_mutant_refuted. Qed.
+
+(* finding C09-N10 (in /repo): genetic_relatedness_weighted never validates its index tuples *)
+Theorem relatedness_weighted_index_tuples_refuted :
+  exists nw idx, 0 < nw /\ relatedness_weighted_entry false nw idx = OOB.
+Proof. exact Guard3Proofs.relatedness_weighted_index_tuples_refuted. Qed.
+
+Theorem guard_implies_in_bounds_relatedness_weighted_repaired : forall nw idx,
+  0 <= nw -> relatedness_weighted_entry true nw idx <> OOB.
+Proof. exact Guard3Proofs.guard_implies_in_bounds_relatedness_weighted_repaired. Qed.
+
+(* the sample-set statistics with index tuples (f2/f3/f4, divergence, Y2, Y3, genetic_relatedness, Fst) *)
+Theorem guard_implies_in_bounds_set_indexes : forall n idx,
+  0 <= n -> set_indexes_entry n idx <> OOB.
+Proof. exact Guard3Proofs.guard_implies_in_bounds_set_indexes. Qed.
